@@ -16,7 +16,8 @@
    Every disagreement is printed as  "MM <json>"  and validation continues with the specification
    resynchronised to the logged state (the observed snapshot; leaking tokens are not learnt).
    "RD <json>" lines record statements whose placeholders are not spelled as documented (evidence
-   only).  Acceptance: high-water mark register 1 = Len(TraceLog) + 1. *)
+   only).  "SX <json>" = the two formulations of the property in Redact.tla disagree (a defect of the
+   specification, never a verdict).  Acceptance: high-water mark register 1 = Len(TraceLog) + 1. *)
 EXTENDS Redact, Json
 
 TraceLog == ndJsonDeserialize("c45_trace.ndjson")
@@ -46,7 +47,9 @@ StmtStep(ev) ==
     IN
     /\ (IF ds = {} THEN TRUE ELSE Say("MM", [l |-> l, tr |-> ev.tr, i |-> ev.i, ds |-> ds]))
     /\ (IF doc[2] = {} THEN TRUE ELSE Say("RD", [l |-> l, tr |-> ev.tr, i |-> ev.i, pos |-> doc[2]]))
-    /\ vm' = (IF ev.unp THEN vm ELSE vmA)
+    /\ (IF vm.clean /\ ds = {} /\ ~ev.unp /\ ~ConformsSpelledOut(ev.in, ev.out, vm, vmA)
+        THEN Say("SX", [l |-> l, tr |-> ev.tr, i |-> ev.i]) ELSE TRUE)
+    /\ vm' = [(IF ev.unp THEN vm ELSE vmA) EXCEPT !.clean = vm.clean /\ ds = {}]
     /\ rm' = rmA
     /\ am' = doc[1]
 
